@@ -530,6 +530,57 @@ theorem C29_signed_chunk_safe (chunkLen sigLen : Nat) : signedChunkOutcome chunk
   · rfl
   · simp [h]
 
+/-! ### hang: value changes of a node monitored by a stalled subscription -/
+
+open Opcua.Notify in
+/-- source facts: ChangeNotification sends on the 100-entry NotifyChannel with a plain send under its
+    mutex, and SetAttribute calls it on the dispatcher goroutine -/
+theorem C29_notify_facts :
+    notifySendUnderLock = true ∧ setAttributeNotifiesInline = true ∧ notifyChanCap = 100 := by decide
+
+open Opcua.Notify in
+/-- As long as the channel has room the writes are answered, whatever the subscription goroutine does … -/
+theorem C29_notify_fill (s : NState) (k : Nat) (hb : s.blocked = false) (hr : s.registered = true)
+    (hk : s.queued + k ≤ notifyChanCap) :
+    runN s (List.replicate k .write) = ({ s with queued := s.queued + k }, List.replicate k true) :=
+  fill s k hb hr hk
+
+open Opcua.Notify in
+/-- … and the first write that finds it full blocks the dispatcher, the mutex held. -/
+theorem C29_notify_blocks (s : NState) (hb : s.blocked = false) (hr : s.registered = true)
+    (hq : s.queued = notifyChanCap) : stepN s .write = ({ s with blocked := true }, false) := by
+  have hf : (notifySendUnderLock && setAttributeNotifiesInline) = true := by decide
+  simp [stepN, hb, hr, hf, hq]
+
+open Opcua.Notify in
+/-- Permanence: once the dispatcher is blocked and the subscription goroutine is not receiving (stalled
+    in a send to a connection that is not read, or already gone), NO sequence of events — further
+    requests, closing the stalled connection, anything — ever unblocks it, and no request of any client
+    is answered again: the goroutine's own clean-up needs the mutex the dispatcher holds. -/
+theorem C29_finding_notify_permanent (s : NState) (h : stuck s = true) (l : List Ev) :
+    stuck (runN s l).1 = true ∧
+    (runN s (l ++ [.request])).2.getLast? = some false ∧ (runN s (l ++ [.write])).2.getLast? = some false := by
+  have hs := stuck_run s l h
+  have hu := stuck_unanswered (runN s l).1 hs
+  refine ⟨hs, ?_, ?_⟩ <;> simp [runN_append, runN, hu.1, hu.2]
+
+open Opcua.Notify in
+/-- a receiving goroutine resolves the situation: the pending send completes -/
+theorem C29_notify_drain_unblocks (s : NState) (hc : s.consumer = .running) (hb : s.blocked = true) :
+    (stepN s .drain).1.blocked = false := by
+  simp [stepN, hc, hb]
+
+open Opcua.Notify in
+/-- the whole attack from the freshly created subscription: the goroutine stalls on its unread
+    connection, 100 value changes are queued, the 101st blocks the dispatcher; closing the stalled
+    connection afterwards does not help; a request of another client is never answered -/
+theorem C29_finding_notify_hang :
+    (runN {} ([.stall] ++ List.replicate 100 .write ++ [.write, .connClosed, .request])).2.getLast? = some false ∧
+    stuck (runN {} ([.stall] ++ List.replicate 100 .write ++ [.write, .connClosed])).1 = true ∧
+    -- closing the connection BEFORE the channel is full lets the clean-up run: everybody is served
+    (runN {} ([.stall] ++ List.replicate 100 .write ++ [.connClosed, .write, .request])).2.getLast? = some true := by
+  decide
+
 /-! ### non-vacuity -/
 
 example : safe st2 1 (.deleteSubscriptions [1, 7]) = true ∧ safe st2 0 .read = true ∧ safe st2 0 (.setMonitoringMode [1]) = true := by decide
